@@ -16,8 +16,8 @@ from habutax import solver as hb_solver      # noqa: E402
 ID = 'C11'
 LEVEL = 'exploration'
 PLAN = {
-    'quick': [('echo_file', 9000), ('echo_prompt', 5000), ('flip', 6000), ('store_history', 5000), ('shipped', 160)],
-    'thorough': [('echo_file', 400000), ('echo_prompt', 200000), ('flip', 250000), ('store_history', 200000), ('shipped', 8000)],
+    'quick': [('echo_file', 9000), ('echo_prompt', 5000), ('flip', 6000), ('store_history', 5000), ('synth_session', 5000), ('shipped', 160)],
+    'thorough': [('echo_file', 400000), ('echo_prompt', 200000), ('flip', 250000), ('store_history', 200000), ('synth_session', 150000), ('shipped', 8000)],
 }
 DEADLINE = {'quick': 220, 'thorough': 3300}
 PROBES = ['store-history-delete-then-solve', 'store-history-respecified-type', 'invalid-text-with-interactive-user', 'invalid-text-in-file-rejected', 'invalid-answer-reasked', 'boundary-text-accepted', 'nonfinite-text-offered',
@@ -549,7 +549,61 @@ def eval_shipped(case, acc=None):
     return fs
 
 
+def eval_session(case, acc=None):
+    """whole sessions on generated programs, judged only for what C11 says about supplied / not supplied:
+    (a) a user who answers some questions and then refuses - nothing that was answered (or was in the file) may be reported
+        as missing;
+    (b) an interactive session with write-back, then a plain solve on the written file - no line of the second run may
+        receive a value for an input that was neither in the original file nor answered (a blank that write-back made up
+        is not a supplied value)."""
+    fs = []
+    if case['kind'] == 'refuse':
+        try:
+            run = simrun.execute(case)
+        except (core.RunTimeout, core.BudgetExceeded):
+            raise
+        if run.outcome in ('solved', 'failed'):
+            given = set(run.supplied)
+            wrong = sorted(n for n in (run.unmet_in or {}) if n in given and not case['persona'].get(n, {}).get('default_text'))
+            if wrong:
+                fs.append(F(ID, 'C11.absent', 'supplied-reported-missing',
+                            f'inputs {wrong[:4]} were supplied (file or answered before the refusal) but are reported as needed and not supplied'))
+        for code, msg in run.monitor.violations:
+            if code == 'H6':
+                fs.append(F(ID, 'H6', 'H6', msg))
+        if acc is not None:
+            acc.steps += run.rec.attempts + run.rec.prompts
+            acc.count(f'outcome:session-{run.outcome}')
+            if run.monitor.refused and run.monitor.answered:
+                acc.count('fault:refusal-after-answers')
+                acc.add('nontrivial', core.digest_int(['refuse', case['world'], sorted(run.monitor.answered)]))
+        return fs
+    from . import c20
+    world = c20.synth_world(case)
+    path = os.path.join(simrun.scratch_dir(), 'c11_wb.ini')
+    crash.write_text(path, c20.initial_text(case, 'synth'))
+    h = case['hist']
+    run1 = crash.session(world, path, {'prompt': h['prompt'], 'writeback': True, 'solution': False,
+                                       'interrupt': [h['refuse_at'], 'ctrlc'] if h.get('refuse_at') is not None else None})
+    truth = set(crash.names_of(run1.before_items)) | set(run1.answers)
+    run2 = crash.session(world, path, {'prompt': False, 'writeback': False, 'solution': False})
+    made_up = sorted({e[2] for e in run2.rec.events if e[0] == 'RI' and e[3][0] == 'ok' and e[2] not in truth})
+    if made_up:
+        fs.append(F(ID, 'C11.absent', 'never-supplied-has-value',
+                    f'after write-back and a second solve, lines received values for {made_up[:4]}, which were neither in the '
+                    f'original file nor answered'))
+    if acc is not None:
+        acc.steps += run1.rec.attempts + run1.rec.prompts + run2.rec.attempts
+        acc.count(f'outcome:writeback-{run1.outcome}-then-{run2.outcome}')
+        acc.count('fault:write-back-then-solve-again')
+        if run1.answers:
+            acc.add('nontrivial', core.digest_int(['wb', case['world'], sorted(run1.answers)]))
+    return fs
+
+
 def evaluate(case, engine, acc=None):
+    if engine == 'synth_session':
+        return eval_session(case, acc)
     if engine == 'store_history':
         return eval_store_history(case, acc)
     if engine == 'flip':
@@ -561,6 +615,19 @@ def evaluate(case, engine, acc=None):
 
 def make_case(engine, seed):
     rng = core.Rng(core.h64('c11', seed))
+    if engine == 'synth_session':
+        if rng.chance(0.5):
+            case = gen.gen_case(seed, force_faults=rng.pick([['refuse'], ['refuse'], ['refuse', 'notimpl'], ['refuse', 'dup']]))
+            case['prompt'] = True
+            case['refuse_at'] = rng.pick([1, 1, 2, 3, 5])
+            case['file'] = [n for n in case['file'] if rng.chance(0.4) or case['persona'][n]['invalid'] or '\n' in case['persona'][n]['text']]
+            case['kind'] = 'refuse'
+        else:
+            case = gen.gen_case(seed, force_faults=rng.pick([[], ['missing'], ['missing', 'notimpl'], ['refuse']]))
+            case['hist'] = {'prompt': rng.chance(0.6), 'refuse_at': rng.pick([None, 0, 0, 1, 2])}
+            case['file'] = [n for n in case['file'] if rng.chance(0.5) or case['persona'][n]['invalid'] or '\n' in case['persona'][n]['text']]
+            case['kind'] = 'writeback'
+        return case
     if engine == 'store_history':
         return make_store_history(seed)
     if engine == 'shipped':
